@@ -23,7 +23,7 @@ TECHNIQUE = ('explicit-state bfs over structured edits x option settings on full
              'line/token/comment diff against an allowed region computed from CPython positions, the token stream and a reference of '
              'the documented trivia selection')
 LEVEL_TEXT = ('every edit of the alphabet (replace, remove, slice put/delete, insert at every target) x 9 trivia/pep8space/elif_/docstr '
-              'settings on 31 programs (12 fully commented, 12 shared, 7 hostile: comments ending in a backslash or looking like code, multi-line and nested f-strings inside re-indented blocks) is executed; all old non-blank lines outside the allowed line span must be '
+              'settings on 32 programs (12 fully commented, 12 shared, 8 hostile: comments ending in a backslash or looking like code, multi-line and nested f-strings inside re-indented blocks) is executed; all old non-blank lines outside the allowed line span must be '
               'byte-identical and in order, the payload token sequence (names, numbers, strings, non-separator keywords) must equal the old one with the tokens inside the edited extent swapped for those of the new code, and the comment multiset must be conserved '
               'except for comments the effective trivia option selects')
 LEVEL_NOTE = ('trusted: CPython ast positions / tokenize; the trivia reference treats the option as permission, not obligation; the '
@@ -31,7 +31,7 @@ LEVEL_NOTE = ('trusted: CPython ast positions / tokenize; the trivia reference t
 RULE = ('bfs: transitions = edits applied; non-trivial = distinct (pre-state, edit) that changed the source; states = canonical '
         '(src, positioned dump); traces = transitions diffed against the allowed region')
 ASSUMPTIONS = ['norm=True, pars auto', 'comments in the programs are unique so that conservation is a multiset check']
-BOUNDS = {'quick': '31 programs, depth 1, 2 codes per category (src form), 9 option settings',
+BOUNDS = {'quick': '32 programs, depth 1, 2 codes per category (src form), 9 option settings',
           'thorough': 'depth 2 with the 1-code alphabet; 4 codes, 3 forms at depth 1'}
 
 COMMENTED = [
@@ -63,6 +63,8 @@ HOSTILE = [
     # undelimited name / target lists at the end of a block section, semicolons (also inside a string) in the sections that follow
     "try:  # c0\n    import a, b  # c1\nexcept E:  # c2\n    print('no; way')  # c3\nelse:  # c4\n    del p, q  # c5\nfinally:  # c6\n    r; s  # c7",
     "def f():  # c0\n    if a:  # c1\n        global g, h  # c2\n    elif b:  # c3\n        from m import i, j  # c4\n    else:  # c5\n        k = 1; l = 2  # c6",
+    # bodies that start with a constant which is not a docstring (stubs, protocol members)
+    "def f(): ...  # c0\nclass P:  # c1\n    x: int  # c2\n    def m(self): ...  # c3\ndef g():  # c4\n    1  # c5\n    return 2  # c6\ndef h():  # c7\n    b'x'  # c8",
 ]
 for _p in HOSTILE:
     ast.parse(_p)
@@ -71,7 +73,7 @@ LC_PROGS = list(range(len(COMMENTED))) + list(range(len(PROGS) - len(HOSTILE), l
 
 OPTS = [{}, {'trivia': False}, {'trivia': 'all'}, {'trivia': ('all', 'all')}, {'trivia': 'block+1'}, {'trivia': ('none', 'none')},
         {'pep8space': False}, {'elif_': False}, {'docstr': False}]
-KINDS = ('replace', 'remove', 'put_slice', 'del_slice', 'insert')
+KINDS = ('replace', 'remove', 'put_slice', 'del_slice', 'insert', 'docstr')
 
 
 def nonblank(lines):
@@ -301,6 +303,26 @@ def allowed(src, tree, op):
                     m = re.search(r'#.*$', lines[ln - 1])
                     if m:
                         coms_ok.add(m.group(0).strip())
+    elif k == 'put_docstr':
+        node = O.get_path(tree, path)
+        body = getattr(node, 'body', None)
+        if not isinstance(body, list) or not body:
+            return None
+        b0 = body[0]
+        has = isinstance(b0, ast.Expr) and isinstance(b0.value, ast.Constant) and isinstance(b0.value.value, str)
+        if has:
+            a, b = span(b0)
+            lines_ok |= set(range(a, b + 1))
+            tl, _ = trivia_lines(a, b)
+            lines_ok |= {ln for ln in tl if not lines[ln - 1].strip()}
+        else:  # insertion in front of the first statement: blank lines there; a body on the header line gets normalised
+            first = span(b0)[0]
+            hdr = getattr(node, 'lineno', 1)
+            for ln in range(max(hdr, 1), first):
+                if not lines[ln - 1].strip():
+                    lines_ok.add(ln)
+            if hasattr(node, 'lineno') and b0.lineno == node.end_lineno == node.lineno or (hasattr(node, 'lineno') and lines[b0.lineno - 1][:O.byte2char(lines[b0.lineno - 1], b0.col_offset)].strip()):
+                lines_ok |= set(range(node.lineno, node.end_lineno + 1))
     elif k == 'put_line_comment':
         st = O.get_path(tree, path)
         if not isinstance(st, ast.stmt):
@@ -394,6 +416,22 @@ def token_expectation(src, tree, op):
             a = b = end(lst[-1])
     elif k == 'put_line_comment':
         return ('exact', [t[0] for t in old])
+    elif k == 'put_docstr':
+        node = O.get_path(tree, path)
+        body = getattr(node, 'body', None)
+        if not isinstance(body, list) or not body:
+            return None
+        b0 = body[0]
+        has = isinstance(b0, ast.Expr) and isinstance(b0.value, ast.Constant) and isinstance(b0.value.value, str)
+        names = [t[0] for t in old]
+        if has:
+            a, b = start(b0), end(b0)
+            pre = [t[0] for t in old if t[2] <= a]
+            post = [t[0] for t in old if t[1] >= b]
+            return ('docstr', pre, post, op.get('text') is not None)
+        if op.get('text') is None:
+            return ('exact', names)
+        return ('docstr-any', names)
     else:
         return None
     pre = [t[0] for t in old if t[2] <= a]
@@ -471,9 +509,19 @@ def check_transition(src, new, op, res, cid, rep, params):
     got = toks(new)
     if exp is not None and got is not None:
         got = [t[0] for t in got]
+        def is_str(t):
+            return t[:1] in '"\'' or t[:2].lower() in ('r"', "r'", 'u"', "u'") or t[:3].lower() in ('r""', "r''")
         if exp[0] == 'exact':
             ok = got == exp[1]
             want = exp[1]
+        elif exp[0] == 'docstr':  # the old docstring token replaced by one string token (or removed)
+            _, pre_, post_, keep = exp
+            want = pre_ + (['<docstring>'] if keep else []) + post_
+            ok = (got[:len(pre_)] == pre_ and got[len(got) - len(post_):] == post_ and len(got) == len(want)
+                  and (not keep or is_str(got[len(pre_)])))
+        elif exp[0] == 'docstr-any':  # one string token added, everything else untouched
+            want = exp[1] + ['<+ docstring>']
+            ok = len(got) == len(exp[1]) + 1 and any(got[:q] + got[q + 1:] == exp[1] and is_str(got[q]) for q in range(len(got)))
         else:
             _, o, c = exp
             ok = len(got) == len(o) + len(c) and any(got == o[:q] + c + o[q:] for q in range(len(o) + 1))
